@@ -4,6 +4,7 @@ mod e1;
 mod e2;
 mod e2d;
 mod e2n;
+mod e2p;
 mod e2x;
 mod e3;
 mod e4;
@@ -61,7 +62,7 @@ fn main() {
                         }
                     }
                     "C09" | "C10" | "C16" => e1::replay_cmd(&ctx, &id, &file),
-                    "C01" | "C02" | "C03" | "C04" | "C11" | "C12" | "C15" => e2::replay_cmd(&ctx, &id, &file),
+                    "C01" | "C02" | "C03" | "C04" | "C11" | "C12" | "C14" | "C15" => e2::replay_cmd(&ctx, &id, &file),
                     "C06" | "C17" => e3::replay_cmd(&ctx, &id, &file),
                     _ => inconclusive("replay not implemented for this property"),
                 }
@@ -80,6 +81,7 @@ fn main() {
                 "C12" => e2::c12(&ctx),
                 "C15" => e2d::c15(&ctx),
                 "C13" => e2n::c13(&ctx),
+                "C14" => e2p::c14(&ctx),
                 "C06" => e3::c06(&ctx),
                 "C17" => e3::c17(&ctx),
                 "C08" => e4::c08(&ctx),
